@@ -120,9 +120,9 @@ var RSAMethods = []string{
 
 // IDPConf is a generated IdP configuration.
 type IDPConf struct {
-	Base          string `json:"base"`               // e.g. https://idp.example.com
-	KeyName       string `json:"key_name,omitempty"` // fixture; "" = idp
-	Signer        bool   `json:"signer,omitempty"`   // use an opaque crypto.Signer instead of Key
+	Base          string `json:"base"`                // e.g. https://idp.example.com
+	KeyName       string `json:"key_name,omitempty"`  // fixture; "" = idp
+	Signer        bool   `json:"signer,omitempty"`    // use an opaque crypto.Signer instead of Key
 	StaleKey      bool   `json:"stale_key,omitempty"` // with Signer: Key is ALSO set, to another (stale) private key; the Signer, whose public key the certificate carries, is what must be used
 	SigMethod     string `json:"sig_method,omitempty"`
 	Intermediates int    `json:"intermediates,omitempty"`
